@@ -25,7 +25,7 @@ RULE = ("Hypothesis constructs a directory tree of .xbb files: 1..3 subroutines 
         ">=2 calls of one subroutine, or nesting depth >=2, or cwd != main directory. Distinct = SHA-1 of all file texts + cwd.")
 ASSUMPTIONS = ["reference interpreter and inliner (bbv/model/refsem.py)", "files are ASCII (FileStream default)",
                "mismatched calls (arity, keywords) are covered by C11"]
-BUDGET = {"quick": (400, 4), "thorough": (8000, 16)}
+BUDGET = {"quick": (1200, 4), "thorough": (8000, 16)}
 
 _GATES = ["Sgate", "BSgate", "Rgate", "Vac", "Dgate", "MeasureX"]
 
@@ -75,6 +75,17 @@ def subroutine(draw, name, template):
     for p in params:
         if p not in used_params:
             items.append(A.Stmt("Rgate", A.Args([S.F1(A.Param(p))], [], False), [S.F1(A.Num("int", str(modes[0])))], "", ""))
+    if draw(st.integers(0, 3)) == 0:
+        # one or two statements of the subroutine stand in a for loop (they do not mention the loop variable), optionally
+        # followed by one that does
+        a_ = draw(st.integers(0, len(items) - 1))
+        b_ = min(len(items), a_ + draw(st.integers(1, 2)))
+        body = list(items[a_:b_])
+        if draw(st.booleans()):
+            body.append(A.Stmt("Dgate", A.Args([A.Flat([A.Operand("", A.Num("float", "0.5")), A.Operand("", A.Var("i"))], ["*"])], [], False),
+                               [S.F1(A.Num("int", str(modes[0])))], "", ""))
+        hdr = A.Range("0", str(draw(st.integers(2, 3)))) if draw(st.booleans()) else A.ForList([S.F1(A.Num("int", "3")), S.F1(A.Num("int", "5"))], "[", "]")
+        items[a_:b_] = [A.For("int", "i", hdr, body)]
     return A.Script(name, "1.0", None, None, [], items), modes, params
 
 
@@ -194,10 +205,18 @@ def case(draw, tier):
     case_["cwd"] = draw(st.sampled_from(["main", "main", "sibling", "root", "unrelated"]))
     case_["how"] = draw(st.sampled_from(["abs", "rel"]))
     case_["decoy"] = draw(st.booleans())
+    case_["symlink"] = draw(st.integers(0, 3)) == 0
     case_["main_items"] = main_items
     # draw the call statements now (arity of the wrapper is known only after the reference run: use placeholders)
     case_["call_draws"] = [[draw(st.integers(0, 30)) for _ in range(8)] + [draw(st.integers(0, 3))] for _ in case_["calls"]]
-    case_["kw_draws"] = [[draw(st.sampled_from(["0.5", "1.25", "2", "3.0", "0.125"])) for _ in range(3)] for _ in case_["calls"]]
+    case_["kw_draws"] = [[draw(st.sampled_from(["0.5", "1.25", "2", "3.0", "0.125", "1", "2.0"])) for _ in range(3)] for _ in case_["calls"]]
+    # a later call of the same subroutine with look-alike keyword values: equal numbers of the other type (2 / 2.0)
+    twin = {"2": "2.0", "2.0": "2", "3.0": "3", "1": "1.0", "0.5": "0.50", "1.25": "1.25", "0.125": "0.1250", "0.50": "0.5", "0.1250": "0.125"}
+    for j, cj in enumerate(case_["calls"]):
+        earlier = [i for i in range(j) if case_["calls"][i]["name"] == cj["name"]]
+        if earlier and draw(st.integers(0, 2)) == 0:
+            case_["kw_draws"][j] = [twin[x] for x in case_["kw_draws"][earlier[0]]]
+            cj["loop"] = case_["calls"][earlier[0]]["loop"] = False
     return case_
 
 
@@ -325,13 +344,40 @@ def check(c):
                         with open(target, "w", encoding="ascii") as f:
                             f.write("name %s\nversion 1.0\nDecoy | 0\n" % nm)
                         decoys += 1
+        symlinked = 0
+        if c.get("symlink"):
+            # an include written through a symbolic link and "..":  include "lnk/../<path>" where lnk points into another
+            # directory tree, so that the operating system resolves it to <root>/zz9/<path> (the file is moved there and a
+            # decoy of the same name is left where a purely textual lnk/.. -> . would look)
+            referenced_elsewhere = {t for rel_, f_ in c["files"].items() for _, t in f_["includes"]}
+            for (kind, target), _nm in zip(_inc_pairs(c), _inc_names(c)):
+                sline = _relpath(maindir, target)
+                if kind != "rel" or target in referenced_elsewhere or c["files"][target]["includes"] or sline.startswith("..") \
+                        or [t for _, t in _inc_pairs(c)].count(target) != 1 \
+                        or ('"%s"' % sline) not in texts[c["main"]]:
+                    continue
+                os.makedirs(os.path.join(root, "zz9", "inner"), exist_ok=True)
+                lnk = os.path.join(root, maindir, "lnk")
+                if not os.path.islink(lnk):
+                    os.symlink(os.path.join(root, "zz9", "inner"), lnk)
+                moved = os.path.join(root, "zz9", sline)
+                os.makedirs(os.path.dirname(moved), exist_ok=True)
+                orig = os.path.join(root, target)
+                shutil.move(orig, moved)
+                with open(orig, "w", encoding="ascii") as f:
+                    f.write("name %s\nversion 1.0\nDecoy | 0\n" % c["files"][target]["script"].name)
+                texts[c["main"]] = texts[c["main"]].replace('"%s"' % sline, '"lnk/../%s"' % sline)
+                with open(os.path.join(root, c["main"]), "w", encoding="ascii", newline="") as f:
+                    f.write(texts[c["main"]])
+                symlinked += 1
+                break
         os.chdir(cwd)
         main_abs = os.path.join(root, c["main"])
         arg = main_abs if c["how"] == "abs" or cwd_rel is None else os.path.relpath(main_abs, cwd)
         p, e = K.safe_load_file(arg)
         os.chdir(old)
         allt = "\n".join("### %s\n%s" % (k, v.replace(root, "<ROOT>")) for k, v in sorted(texts.items()))
-        key = allt + "|cwd=%s|how=%s|decoys=%d" % (c["cwd"], c["how"], decoys)
+        key = allt + "|cwd=%s|how=%s|decoys=%d|symlink=%d" % (c["cwd"], c["how"], decoys, symlinked)
         out = Outcome(key=key, sample={"files": {k: v.replace(root, "<ROOT>") for k, v in texts.items()}, "cwd": c["cwd"], "load_path": c["how"]})
         unsorted_sub = any(cc["modes"] is not None and cc["modes"] != sorted(cc["modes"]) and len(cc["modes"]) > 1 and cc["name"] in c["chosen"]
                            for cc in c["callables"])
@@ -342,6 +388,8 @@ def check(c):
             out.classes.append("repeated-call")
         if decoys:
             out.classes.append("decoy-in-cwd")
+        if symlinked:
+            out.classes.append("include-through-symlink-and-dotdot")
         if any(k == "abs" for k, _ in c["main_incs"]):
             out.classes.append("absolute-include")
         if any(cl["loop"] for cl in c["calls"]):
